@@ -76,15 +76,17 @@ def _job_replay(arg):
 
     base, pack = arg
     out = []
+    n_numeric = 0
     for k, s in enumerate(pack):
         try:
             obs = fz.run_scenario(s["sc"], variant=base + k)
             bad = fz.compare(s["sc"], s["expect"], obs)
         except Exception as e:  # noqa: BLE001  (harness failure, not a verdict)
             return ("exc", f"{type(e).__name__}: {str(e)[:400]}")
+        n_numeric += 1 if obs.get("numeric_levels_pooled") else 0
         if bad:
             out.append({"index": base + k, "bad": bad[:3], "sc": s["sc"], "expect": s["expect"], "observed": obs})
-    return ("ok", out)
+    return ("ok", out, n_numeric)
 
 
 def _job_trace(job):
@@ -158,9 +160,12 @@ def _replay(run, scens, facts_extra, pack_size=150):
     packs = [(i, scens[i : i + pack_size]) for i in range(0, len(scens), pack_size)]
     results = common.pool().map(_job_replay, packs, chunksize=1)
     n_bad = 0
-    for (base, pack), (status, val) in zip(packs, results):
+    for (base, pack), res in zip(packs, results):
+        status, val = res[0], res[1]
         if status == "exc":
             raise tlc.MachineryError(f"replay harness failed: {val}")
+        if len(res) > 2 and res[2]:
+            run.witness("replay_numeric_levels_with_selected_values", res[2])
         run.cov["scenarios_replayed_into_impl"] += len(pack)
         for b in val:
             n_bad += 1
@@ -289,7 +294,7 @@ def c16(tier, seed):
     run.add_tlc("MC_FeaturizerSpec_collision_asfound_export.cfg", res, {"family": "collision, code as found"})
     asfound = [v for t, v in res.printed if t == "SCEN"]
     packs = [(i, asfound[i : i + 50]) for i in range(0, len(asfound), 50)]
-    differ = sum(len(val) for status, val in common.pool().map(_job_replay, packs, chunksize=1) if status == "ok")
+    differ = sum(len(r[1]) for r in common.pool().map(_job_replay, packs, chunksize=1) if r[0] == "ok")
     run.cov["name_collision_probes"]["asfound_model_replayed"] = len(asfound)
     run.cov["name_collision_probes"]["asfound_model_differs_from_code"] = differ
 
@@ -332,6 +337,7 @@ def c16(tier, seed):
             "replay_state_copies",
             "replay_centered",
             "replay_other_pooled",
+            "replay_numeric_levels_with_selected_values",
             "replay_level_only_outside_fitting_rows",
             "replay_outside_rows",
             "replay_interval_slices",
